@@ -7,6 +7,7 @@ from .. import paths
 from ..core import FUNC, call_attr, calls_in, const, dotted, is_const, kwarg, norm, text, walk_local
 
 EXPLANATION = [
+    'C15.update-precedence: JsonKeyStore.update merges the new fields into the stored entry (stored.update(new)), so later updates override earlier ones.',
     'C15.atomic-write: the only write-mode open in keys.py targets the ".tmp" sibling; os.replace(tmp, filename) comes after the '
     '`with` block has closed the file (not inside it); nothing else in the module writes, truncates, renames or removes files; '
     'every mutator persists through save() with the database object returned by load(), on every path.',
@@ -207,7 +208,38 @@ def fields_rule(ctx):
             R.check(w and r_, rule, f'{q}.{bf} | hex pairing', 'hex() on write, bytes.fromhex() on read', f'bytes field {bf} is not hex/fromhex paired', p.loc(td))
 
 
+
+def update_precedence(ctx):
+    """An update overrides what was stored (later updates win)."""
+    R, p = ctx.r, ctx.p
+    rule = 'C15.update-precedence'
+    fn = p.find(f'{JS}.update')
+    if fn is None:
+        R.bad(rule, f'{JS}.update', 'anchor missing')
+        return
+    keys_param = fn.args.args[2].arg
+    name_param = fn.args.args[1].arg
+    defs = {t.id: n.value for n in walk_local(fn) if isinstance(n, ast.Assign) and len(n.targets) == 1 for t in n.targets if isinstance(t, ast.Name)}
+
+    def origin(e):
+        for _ in range(4):
+            if isinstance(e, ast.Name) and e.id in defs:
+                e = defs[e.id]
+        t = norm(e)
+        if f'{keys_param}.to_dict()' in t:
+            return 'new'
+        if 'key_map' in t:
+            return 'stored'
+        return 'other'
+    ups = [c for c in calls_in(fn) if call_attr(c) == 'update' and isinstance(c.func, ast.Attribute) and c.args]
+    ok = len(ups) == 1 and origin(ups[0].func.value) == 'stored' and origin(ups[0].args[0]) == 'new'
+    replaced = any(isinstance(n, ast.Assign) and isinstance(n.targets[0], ast.Subscript) and norm(n.targets[0]) == f'key_map[{name_param}]' and origin(n.value) == 'new' and not ups for n in walk_local(fn))
+    R.check(ok or replaced, rule, f'{JS}.update | new fields win', 'the stored entry receives the new fields (stored.update(new)) or is replaced by them',
+            'update() keeps the stored fields in preference to the new ones: re-pairing does not replace the old keys, the store no longer equals the updates applied in order', p.loc(fn))
+
+
 RULES = [
+    ('C15.update-precedence', update_precedence),
     ('C15.atomic-write', atomic_write),
     ('C15.load-shape', load_shape),
     ('C15.fields', fields_rule),
